@@ -131,6 +131,95 @@ class C08(Prop):
             if rng.random() < 0.2:
                 ys = ys[:-1]
             cases.append({"kind": "mixed", "vals": [["l", xs], ["l", ys]], "runner": rng.choice("IC"), "via": "var"})
+        cases += self._round2(random.Random(rng.random()), quick)
+        return cases
+
+    # -- round 2: inputs for whole classes of well-meant changes ------------------------------------------------------
+    NUMERALS = [0, 1, 2, 3, 5, 7, 2**31, 2**32, 2**53, 2**62]
+
+    def _round2(self, rng: random.Random, quick: bool) -> List[Dict[str, Any]]:
+        """(a) values that differ but are "the same" under a coarser notion (Unicode normalisation forms, case mappings,
+        padding, stripped marks; integers modulo 2^32/2^63, doubles within a tolerance or equal in binary32, equal wall-clock
+        readings, instants/durations equal after truncation) — what a fast path, a normalisation or a tolerance in ONE
+        operator gets wrong while the other operators keep comparing the raw values;
+        (b) sequences in one process / one program: the same numerals (and the same text) compared in one CEL type after
+        the other — what a cache, memo or interning keyed by Python equality/hash (IntType(5) == UintType(5) raises,
+        hash(5) == hash(5.0) == hash(5u), hash('a') == hash(b'a')) gets wrong.
+        These cases use `prog: shared` (one program per operator and runner, re-evaluated with new bindings) unless literal."""
+        cases: List[Dict[str, Any]] = []
+        def emit(vals, **kw):
+            c = {"kind": "laws", "vals": vals, "runner": rng.choice("IC"), "via": "lit" if rng.random() < 0.25 else "var",
+                 "prog": "fresh" if rng.random() < 0.2 else "shared"}
+            c.update(kw)
+            cases.append(c)
+        # (a1) texts
+        for _ in range(140 if quick else 4000):
+            base = V.gen_text(rng)
+            texts = [base] + V.equiv_texts(rng, base, rng.choice([1, 2]))
+            vals = [V.str_spec(t) for t in texts]
+            r = rng.random()
+            if r < 0.12:
+                vals = [["l", [v]] for v in vals]
+            elif r < 0.2:
+                vals = [["l", [["s", [0x61]], v, ["s", []]]] for v in vals]
+            elif r < 0.3:
+                vals = [["m", [[["s", [0x6B]], v]]] for v in vals]
+            elif r < 0.36 and all(0 not in v[1] for v in vals):
+                vals = [["m", [[v, ["i", 1]]]] for v in vals]
+            elif r < 0.4:
+                vals = [["l", [["m", [[["i", 1], ["l", [v]]]]]]] for v in vals]
+            emit(vals)
+        # (a2) every pair inside a few canonical-equivalence / compatibility / case groups, with an unrelated neighbour
+        groups = [["\u00e9", "e\u0301", "e"], ["\u00c5", "\u212b", "A\u030a"], ["\uac00", "\u1100\u1161"], ["\ufb01", "fi"],
+                  ["\u00df", "ss", "\u1e9e"], ["\u03c3", "\u03c2", "\u03a3"], ["\u212a", "K", "k"], ["q\u0307\u0323", "q\u0323\u0307"],
+                  ["caf\u00e9", "cafe\u0301", "cafe"], ["\u0130", "i\u0307", "I"]]
+        for g in (rng.sample(groups, 5) if quick else groups):
+            for tr in (rng.sample(list(itertools.permutations(g + ["z"], 3)), 3) if quick else itertools.permutations(g + ["z"], 3)):
+                emit([V.str_spec(t) for t in tr])
+        # (a3) near-equal scalars of the other ordered types
+        for _ in range(110 if quick else 3000):
+            t = rng.choice(["i", "u", "d", "d", "t", "t", "r", "y"])
+            base = V.gen_scalar(rng, t)
+            if V.has_nan(base):
+                continue
+            near = V.near_equal_scalars(rng, base)
+            if not near:
+                continue
+            vals = [base] + [rng.choice(near) for _ in range(rng.choice([1, 2]))]
+            if rng.random() < 0.15:
+                vals = [["l", [v]] for v in vals]
+            emit(vals)
+        # (b) the same numerals / the same text, one CEL type after the other, same runner, shared programs
+        for _ in range(24 if quick else 400):
+            n1, n2 = rng.choice(self.NUMERALS), rng.choice(self.NUMERALS)
+            if rng.random() < 0.4:
+                n2 = n1
+            kinds = ["i", "u", "d"]
+            if n1 < 2 and n2 < 2:
+                kinds.append("b")
+            if rng.random() < 0.5 and max(n1, n2) <= V.DUR_MAX:
+                kinds.append("r")
+            if rng.random() < 0.3 and max(n1, n2) <= V.TS_HI:
+                kinds.append("t")
+            rng.shuffle(kinds)
+            if rng.random() < 0.5:
+                kinds.append(kinds[0])               # and back to the first type
+            runner = rng.choice("IC")
+            for k in kinds:
+                if k == "d":
+                    vals = [["d", V.bits_of(float(n1))], ["d", V.bits_of(float(n2))]]
+                elif k == "t":
+                    vals = [["t", n1, 0], ["t", n2, 0]]
+                else:
+                    vals = [[k, n1], [k, n2]]
+                emit(vals, runner=runner, via="var", prog="shared")
+        for _ in range(10 if quick else 200):
+            txt = [rng.choice([0x61, 0x62, 0x30, 0x7A, 0x00]) for _ in range(rng.choice([0, 1, 1, 2]))]
+            txt2 = txt if rng.random() < 0.5 else txt + [0x61]
+            runner = rng.choice("IC")
+            order = ["s", "y", "s"] if rng.random() < 0.5 else ["y", "s", "y"]
+            for k in order:
+                emit([[k, txt], [k, txt2]], runner=runner, via="var", prog="shared")
         return cases
 
     @staticmethod
@@ -149,6 +238,25 @@ class C08(Prop):
         return not ((a[0] == "d" and b[0] in num) or (b[0] == "d" and a[0] in num))
 
     # -- implementation -------------------------------------------------------------------------------------------
+    _progs: Dict[tuple, Any] = {}
+
+    def _run_shared(self, sym: str, runner: str, x, y) -> str:
+        """`x OP y` on ONE program per (operator, runner) for the whole run, evaluated with fresh bindings each time"""
+        import celpy
+        try:
+            prog = self._progs.get((sym, runner))
+            if prog is None:
+                env = celpy.Environment(runner_class=celrun.RUNNERS[runner])
+                prog = env.program(env.compile(f"x {sym} y"))
+                self._progs[(sym, runner)] = prog
+            return celrun.canon(prog.evaluate({"x": x, "y": y}))
+        except celrun.CELEvalError:
+            return "err"
+        except RecursionError:
+            return "EXC RecursionError"
+        except Exception as ex:  # noqa
+            return f"EXC {type(ex).__name__}"
+
     def impl(self, c):
         vals = c["vals"]
         runner, via = c["runner"], c["via"]
@@ -156,6 +264,7 @@ class C08(Prop):
         if lits is not None and any(x is None for x in lits):
             lits = None
         objs = None if lits else [V.to_obj(v) for v in vals]
+        shared = c.get("prog") == "shared"
         cells = []
         for i in range(len(vals)):
             for j in range(len(vals)):
@@ -163,6 +272,8 @@ class C08(Prop):
                 for _, sym in OPS:
                     if lits:
                         o = celrun.run(f"{lits[i]} {sym} {lits[j]}", runner)
+                    elif shared:
+                        o = self._run_shared(sym, runner, objs[i], objs[j])
                     else:
                         o = celrun.run(f"x {sym} y", runner, {"x": objs[i], "y": objs[j]})
                     chars.append(out_char(o))
